@@ -173,6 +173,20 @@ impl V {
         }
     }
 
+    /// Does this value contain a NaN anywhere (inside an aggregate)?
+    pub fn contains_nan(&self) -> bool {
+        use V::*;
+        match self {
+            F32(x) => x.is_nan(),
+            F64(x) => x.is_nan(),
+            Opt(Some(x)) => x.contains_nan(),
+            Enum(_, _, xs) => xs.iter().any(|x| x.contains_nan()),
+            Rec(fs) => fs.iter().any(|(_, x)| x.contains_nan()),
+            List(xs) => xs.borrow().iter().any(|x| x.contains_nan()),
+            _ => false,
+        }
+    }
+
     pub fn to_j(&self) -> J {
         use V::*;
         match self {
